@@ -55,6 +55,24 @@ def parsePhase? (s : String) : Option Phase :=
       | _ => none
   | [] => none
 
+/-- one call of the caller as the model sees it: usually one phase; `M<c>` = MoveCommand.Wait of a
+    MOVE emulated with COPY (c), STORE (c+1), EXPUNGE (c+2): Wait, then Close, then Close, stopping
+    at the first error -/
+def parseGroup? (s : String) : Option (List Phase) :=
+  match s.toList with
+  | 'M' :: r => (idx? r).map fun c => [.wait c, .close (c + 1), .close (c + 2)]
+  | _ => (parsePhase? s).map fun ph => [ph]
+
+/-- the class of a group of phases observed as one call: the first class that is not "ok" -/
+def foldCls : List String → String
+  | [] => "ok"
+  | c :: r => if c = "ok" && !r.isEmpty then foldCls r else c
+
+/-- fold the per-phase classes by groups -/
+def foldGroups : List (List Phase) → List String → List String
+  | [], _ => []
+  | g :: gs, cl => foldCls (cl.take g.length) :: foldGroups gs (cl.drop g.length)
+
 def parseFault? : String → Option Fault
   | "none" => some .none | "eof" => some .eof | "rerr" => some .rerr | "werr" => some .werr
   | "sclose" => some .sclose | "stimeout" => some .stimeout | _ => none
@@ -63,11 +81,11 @@ def showCls : Cls → String
   | .ok => "ok" | .err => "err" | .ret => "ret" | .skipped => "-"
 
 /-- the observation the model predicts, in the harness's format -/
-def showObs (cfg : Config) (s : St) : String :=
+def showObs (cfg : Config) (groups : List (List Phase)) (s : St) : String :=
   let rest := match s.prog with
     | [] => []
     | _ :: r => "hang" :: r.map fun _ => "-"
-  let p := joinWith "," (s.out.map showCls ++ rest)
+  let p := joinWith "," (foldGroups groups (s.out.map showCls ++ rest))
   let cut := cfg.k < totalLen cfg.items
   let a := if cfg.fault = .stimeout && cut then boolStr (armed cfg) else "-"
   let w := match s.prober with
@@ -94,15 +112,16 @@ def field? (obs : String) (key : String) : Option String :=
     | [k, v] => if k = key then some v else none
     | _ => none
 
-def parseObs? (prog : List Phase) (obs : String) : Option ClientFaultSpec.Observation := do
+def parseObs? (groups : List (List Phase)) (obs : String) : Option ClientFaultSpec.Observation := do
   let p ← field? obs "p"
   let cl := splitOnChar p ','
   let c ← field? obs "c"
   let r ← field? obs "r"
   let w ← field? obs "w"
   -- a dead or expired worker is reported as a single class for the whole case
-  let cl := if cl.length = prog.length then cl else prog.map fun _ => "hang"
-  pure { calls := (prog.zip cl).map fun (ph, cls) => ⟨phaseCmd ph, reports ph, cls⟩
+  let cl := if cl.length = groups.length then cl else groups.map fun _ => "hang"
+  -- a call made of several phases reports the completion of each of their commands
+  pure { calls := (groups.zip cl).flatMap fun (g, cls) => g.map fun ph => ⟨phaseCmd ph, reports ph, cls⟩
          closeReturned := c = "1", readerExited := r = "1", probe := w }
 
 def cmdRefsOk (n : Nat) (items : List Item) (prog : List Phase) : Bool :=
@@ -116,12 +135,13 @@ def handle (f : List String) : String :=
   match f with
   | [id, "cut", _scn, _mode, kinds, items, phases, k, fault, obs] =>
     match (splitOnChar kinds ',').mapM parseKind?, (splitOnChar items ';').mapM parseItem?,
-          (splitOnChar phases ',').mapM parsePhase?, parseNat? k, parseFault? fault with
-    | some kinds, some items, some prog, some k, some fault =>
+          (splitOnChar phases ',').mapM parseGroup?, parseNat? k, parseFault? fault with
+    | some kinds, some items, some groups, some k, some fault =>
+      let prog := groups.flatten
       if !cmdRefsOk kinds.length items prog then s!"{id}\t0\tfail:bad-line\t-" else
       let cfg : Config := { kinds := kinds, items := items, prog := prog, k := k, fault := fault }
-      let m := showObs cfg (simulate cfg)
-      let orc := match parseObs? prog obs with
+      let m := showObs cfg groups (simulate cfg)
+      let orc := match parseObs? groups obs with
         | none => "fail:unparsable-observation"
         | some o => match ClientFaultSpec.violation (items.map toResp) k o with
           | none => "ok"
